@@ -1,2 +1,15 @@
 #!/bin/sh
-exit 0
+# Offline set-up: regenerate the extracted constants, build the Lean development (model,
+# driver executable, every theorem module) and the harness in the profiles the checks use.
+set -e
+cd "$(dirname "$0")"
+export CARGO_NET_OFFLINE=true
+python3 tools/extract.py
+(cd lean && lake build Qwt qwtdriver)
+for m in $(python3 -c "import json;print(' '.join('Qwt.Props.'+k for k,v in json.load(open('lean/obligations.json')).items() if v.get('theorems') or v.get('partial')))"); do
+  (cd lean && lake build "$m")
+done
+(cd harness && cargo build --offline --target-dir target/pf --release)
+(cd harness && cargo build --offline --target-dir target/pf --profile verifdbg)
+(cd harness && cargo build --offline --target-dir target/nopf --release --no-default-features)
+echo setup-done
